@@ -13,6 +13,20 @@
 //! single polls (`pend` if not ready).  When every task has finished its program, tasks that
 //! hold a stream drain it (extra records).  The Lean driver searches for a linearization of the
 //! history (see Driver/C18.lean for how windows and `pend` answers are treated).
+//!
+//! Parked-watcher cases (`park <items>`; items are the ops above plus `a <w>` = a task is spawned
+//! that sits in `stream.message().await` on stream `w`) run on a current-thread tokio runtime with
+//! paused time.  The awaiting task is a real spawned task and is never polled by the harness: it
+//! runs again only if the waker it left in the watch channel is fired.  Reporter calls are made
+//! from other tasks.  After every item the driver task sleeps 1 ms of virtual time — which, with
+//! a paused clock, elapses only once every runnable task has run — and then reports which parked
+//! tasks have finished (`wk<w>:<answer>`).  At the end each task that is still parked is given an
+//! hour of virtual time (`idle<w>` if it is still parked then, `late<w>:<answer>` if the timer's
+//! turn of the scheduler is what made it finish).
+//!
+//! Every observed line is `<exact answers> # <per-stream report sequences>`: `r<w>=<digits>` is
+//! the sequence of statuses stream `w` delivered with immediate repetitions removed (a purely
+//! syntactic function of the answers).  See Driver/C18.lean for how the two parts are compared.
 use crate::common::*;
 use std::future::Future;
 use std::pin::Pin;
@@ -38,6 +52,24 @@ enum Op {
     Watch(usize, String),
     Next(usize), // watcher slot (seq) / ignored (conc: the task's own watcher)
     Drop(usize),
+}
+
+/// Item of a parked-watcher case.
+#[derive(Clone, Debug)]
+enum Item {
+    Op(Op),
+    Await(usize),
+}
+
+fn items_tokens(items: &[Item]) -> String {
+    items
+        .iter()
+        .map(|it| match it {
+            Item::Op(op) => op_tokens(op),
+            Item::Await(w) => format!("a {}", w),
+        })
+        .collect::<Vec<_>>()
+        .join(" ")
 }
 
 /// `NamedService::NAME` of `HealthServer<_>` — what `set_serving::<HealthServer<_>>()` sets.
@@ -70,10 +102,26 @@ fn parse_name(t: &str) -> Option<String> {
 
 /// Parses a flat op token list; `None` on a malformed list.
 fn parse_ops(t: &[&str]) -> Option<Vec<Op>> {
+    parse_items(t, false)?
+        .into_iter()
+        .map(|it| match it {
+            Item::Op(op) => Some(op),
+            Item::Await(_) => None,
+        })
+        .collect()
+}
+
+fn parse_items(t: &[&str], with_await: bool) -> Option<Vec<Item>> {
     let mut out = Vec::new();
     let mut i = 0;
     let num = |s: &str| s.parse::<usize>().ok();
     while i < t.len() {
+        if with_await && t[i] == "a" && i + 1 < t.len() {
+            out.push(Item::Await(num(t[i + 1])?));
+            i += 2;
+            continue;
+        }
+        let mut out = OpSink(&mut out);
         match t[i] {
             "s" if i + 3 < t.len() => {
                 let st = num(t[i + 3])?;
@@ -115,6 +163,13 @@ fn parse_ops(t: &[&str]) -> Option<Vec<Op>> {
         }
     }
     Some(out)
+}
+
+struct OpSink<'a>(&'a mut Vec<Item>);
+impl OpSink<'_> {
+    fn push(&mut self, op: Op) {
+        self.0.push(Item::Op(op));
+    }
 }
 
 fn status_of(s: u8) -> ServingStatus {
@@ -210,6 +265,7 @@ fn run_seq<T: Health>(reporter: HealthReporter, server: HealthServer<T>, ops: &[
     let mut clients = [HealthClient::new(server.clone()), HealthClient::new(server)];
     let mut watchers: Vec<Option<Stream>> = Vec::new();
     let mut out: Vec<String> = Vec::with_capacity(ops.len());
+    let mut polls: Vec<(usize, String)> = Vec::new();
     for op in ops {
         let tok = match op {
             Op::Set(r, n, s) => {
@@ -256,7 +312,11 @@ fn run_seq<T: Health>(reporter: HealthReporter, server: HealthServer<T>, ops: &[
                 }
             }
             Op::Next(w) => match watchers.get_mut(*w) {
-                Some(Some(stream)) => next_tok(stream),
+                Some(Some(stream)) => {
+                    let tok = next_tok(stream);
+                    polls.push((*w, tok.clone()));
+                    tok
+                }
                 _ => "now".to_string(),
             },
             Op::Drop(w) => match watchers.get_mut(*w) {
@@ -269,7 +329,220 @@ fn run_seq<T: Health>(reporter: HealthReporter, server: HealthServer<T>, ops: &[
         };
         out.push(tok);
     }
-    out.join(" ")
+    let key = report_key(watchers.len(), &polls);
+    if out.is_empty() {
+        key
+    } else {
+        format!("{} {}", out.join(" "), key)
+    }
+}
+
+// ---------------------------------------------------------------------------------------------
+// the comparison key that is blind to repeated reports
+
+/// `# r0=<digits> r1=<digits> …`: per stream (slot = index of the Watch call) the statuses it
+/// delivered, immediate repetitions removed.  `polls` = (slot, answer token) of every answer that
+/// came from a stream, in order.
+fn report_key(nslots: usize, polls: &[(usize, String)]) -> String {
+    let mut seqs: Vec<String> = vec![String::new(); nslots];
+    for (w, tok) in polls {
+        if let (Some(seq), Some(d)) = (seqs.get_mut(*w), tok.strip_prefix('v')) {
+            if d.len() == 1 && !seq.ends_with(d) {
+                seq.push_str(d);
+            }
+        }
+    }
+    let mut out = String::from("#");
+    for (w, seq) in seqs.iter().enumerate() {
+        out.push_str(&format!(" r{}={}", w, seq));
+    }
+    out
+}
+
+// ---------------------------------------------------------------------------------------------
+// parked watchers
+
+enum Slot {
+    Empty,
+    Held(Stream),
+    Parked(tokio::task::JoinHandle<(String, Stream)>),
+}
+
+fn msg_tok(r: Result<Option<tonic_health::pb::HealthCheckResponse>, tonic::Status>) -> String {
+    match r {
+        Ok(Some(m)) => wire_status_tok("v", m.status),
+        Ok(None) => "end".into(),
+        Err(st) => format!("err{}", st.code() as i32),
+    }
+}
+
+/// Virtual-time barrier: with a paused clock the sleep elapses only when the runtime has nothing
+/// else to run, i.e. after every task that was woken has been polled.
+async fn quiesce() {
+    tokio::time::sleep(std::time::Duration::from_millis(1)).await;
+}
+
+async fn on_other_task<F>(fut: F) -> String
+where
+    F: Future<Output = ()> + Send + 'static,
+{
+    match tokio::spawn(fut).await {
+        Ok(()) => "ok".to_string(),
+        Err(_) => "panic".to_string(),
+    }
+}
+
+async fn park_body<T: Health>(reporter: HealthReporter, server: HealthServer<T>, items: Vec<Item>) -> String
+where
+    HealthServer<T>: Clone + Send + 'static,
+{
+    let reporters = [reporter.clone(), reporter];
+    let mut clients = [HealthClient::new(server.clone()), HealthClient::new(server)];
+    let mut slots: Vec<Slot> = Vec::new();
+    let mut out: Vec<String> = Vec::new();
+    let mut polls: Vec<(usize, String)> = Vec::new();
+    for it in items {
+        let tok = match it {
+            Item::Await(w) => match slots.get_mut(w) {
+                Some(slot @ Slot::Held(_)) => {
+                    let Slot::Held(mut stream) = std::mem::replace(slot, Slot::Empty) else { unreachable!() };
+                    // the awaiting task: nobody polls it but the runtime, and only when woken
+                    let h = tokio::spawn(async move {
+                        let r = stream.message().await;
+                        (msg_tok(r), stream)
+                    });
+                    quiesce().await;
+                    if h.is_finished() {
+                        match h.await {
+                            Ok((tok, stream)) => {
+                                *slot = Slot::Held(stream);
+                                polls.push((w, tok.clone()));
+                                tok
+                            }
+                            Err(_) => "panic".to_string(),
+                        }
+                    } else {
+                        *slot = Slot::Parked(h);
+                        "parked".to_string()
+                    }
+                }
+                Some(Slot::Parked(_)) => "busy".to_string(),
+                _ => "now".to_string(),
+            },
+            Item::Op(Op::Set(r, n, s)) => {
+                let rep = reporters[r % 2].clone();
+                on_other_task(async move { rep.set_service_status(n.as_str(), status_of(s)).await }).await
+            }
+            Item::Op(Op::Serving(r)) => {
+                let rep = reporters[r % 2].clone();
+                on_other_task(async move { rep.set_serving::<HealthServer<T>>().await }).await
+            }
+            Item::Op(Op::NotServing(r)) => {
+                let rep = reporters[r % 2].clone();
+                on_other_task(async move { rep.set_not_serving::<HealthServer<T>>().await }).await
+            }
+            Item::Op(Op::Clear(r, n)) => {
+                let mut rep = reporters[r % 2].clone();
+                on_other_task(async move { rep.clear_service_status(n.as_str()).await }).await
+            }
+            Item::Op(Op::Check(c, n)) => match clients[c % 2].check(HealthCheckRequest { service: n }).await {
+                Ok(resp) => wire_status_tok("st", resp.into_inner().status),
+                Err(st) => err_tok(&st),
+            },
+            Item::Op(Op::Watch(c, n)) => match clients[c % 2].watch(HealthCheckRequest { service: n }).await {
+                Ok(resp) => {
+                    slots.push(Slot::Held(resp.into_inner()));
+                    "sub".to_string()
+                }
+                Err(st) => {
+                    slots.push(Slot::Empty);
+                    err_tok(&st)
+                }
+            },
+            Item::Op(Op::Next(w)) => match slots.get_mut(w) {
+                Some(Slot::Held(stream)) => {
+                    // one poll, like `next` of the sequential cases: ready now or `pend`
+                    let tok = {
+                        let mut fut = std::pin::pin!(tokio::task::unconstrained(stream.message()));
+                        std::future::poll_fn(|cx| {
+                            Poll::Ready(match fut.as_mut().poll(cx) {
+                                Poll::Ready(r) => msg_tok(r),
+                                Poll::Pending => "pend".to_string(),
+                            })
+                        })
+                        .await
+                    };
+                    polls.push((w, tok.clone()));
+                    tok
+                }
+                Some(Slot::Parked(_)) => "busy".to_string(),
+                _ => "now".to_string(),
+            },
+            Item::Op(Op::Drop(w)) => match slots.get_mut(w) {
+                Some(slot @ Slot::Held(_)) => {
+                    *slot = Slot::Empty;
+                    "ok".to_string()
+                }
+                Some(slot @ Slot::Parked(_)) => {
+                    // the client gives up waiting: the task, and with it the stream, is dropped
+                    if let Slot::Parked(h) = std::mem::replace(slot, Slot::Empty) {
+                        h.abort();
+                        let _ = h.await;
+                    }
+                    "ok".to_string()
+                }
+                _ => "now".to_string(),
+            },
+        };
+        out.push(tok);
+        // let every woken task run, then see which parked tasks have finished by themselves
+        quiesce().await;
+        for (w, slot) in slots.iter_mut().enumerate() {
+            if matches!(slot, Slot::Parked(h) if h.is_finished()) {
+                let Slot::Parked(h) = std::mem::replace(slot, Slot::Empty) else { unreachable!() };
+                match h.await {
+                    Ok((tok, stream)) => {
+                        *slot = Slot::Held(stream);
+                        out.push(format!("wk{}:{}", w, tok));
+                        polls.push((w, tok));
+                    }
+                    Err(_) => out.push(format!("wk{}:panic", w)),
+                }
+            }
+        }
+    }
+    // updates have stopped: a task that is still parked gets an hour of virtual time
+    out.push("fin".to_string());
+    for (w, slot) in slots.iter_mut().enumerate() {
+        if let Slot::Parked(h) = slot {
+            match tokio::time::timeout(std::time::Duration::from_secs(3600), &mut *h).await {
+                Ok(Ok((tok, _))) => {
+                    out.push(format!("late{}:{}", w, tok));
+                    polls.push((w, tok));
+                }
+                Ok(Err(_)) => out.push(format!("late{}:panic", w)),
+                Err(_) => {
+                    h.abort();
+                    out.push(format!("idle{}", w));
+                }
+            }
+        }
+    }
+    format!("{} {}", out.join(" "), report_key(slots.len(), &polls))
+}
+
+fn run_park<T: Health>(reporter: HealthReporter, server: HealthServer<T>, items: Vec<Item>) -> String
+where
+    HealthServer<T>: Clone + Send + 'static,
+{
+    let rt = paused_rt();
+    rt.block_on(async move {
+        // a call that never returns shows as `hang` (the virtual clock jumps when all is idle)
+        match tokio::time::timeout(std::time::Duration::from_secs(1_000_000), park_body(reporter, server, items)).await {
+            Ok(s) => s,
+            Err(_) => "hang".to_string(),
+        }
+    })
 }
 
 // ---------------------------------------------------------------------------------------------
@@ -459,6 +732,13 @@ pub fn execute(case: &str) -> String {
             Some(ops) => {
                 let (reporter, server) = health_reporter();
                 run_seq(reporter, server, &ops)
+            }
+            None => "bad-case".into(),
+        },
+        Some("park") => match parse_items(&t[1..], true) {
+            Some(items) => {
+                let (reporter, server) = health_reporter();
+                run_park(reporter, server, items)
             }
             None => "bad-case".into(),
         },
@@ -750,6 +1030,12 @@ pub fn generate(tier: &str, rng: &mut Rng) -> Vec<String> {
     for len in 0..=maxlen {
         enumerate_one_name(len, &mut out);
     }
+    // ---- parked watchers (tasks sitting in `message().await` while updates arrive)
+    park_corpus(&mut out);
+    gen_park(rng, if thorough { 60000 } else { 4000 }, &mut out);
+    for len in 1..=(if thorough { 6 } else { 4 }) {
+        enumerate_park(len, &mut out);
+    }
     // ---- concurrent histories
     if thorough {
         gen_conc(rng, 40000, &mut out);
@@ -759,6 +1045,108 @@ pub fn generate(tier: &str, rng: &mut Rng) -> Vec<String> {
         gen_create_race(rng, 24000, &mut out);
     }
     out
+}
+
+/// Parked-watcher cases: one or two names, streams that are polled, then awaited; updates of the
+/// same / a different status, clears, re-registrations and unrelated operations arrive while
+/// tasks are parked.
+fn gen_park(rng: &mut Rng, count: usize, out: &mut Vec<String>) {
+    for _ in 0..count {
+        let n = if rng.chance(1, 3) { "".to_string() } else { "a".to_string() };
+        let other = if n.is_empty() { "a".to_string() } else { "".to_string() };
+        let mut items: Vec<Item> = Vec::new();
+        let mut nwatch = 0usize;
+        if !n.is_empty() && rng.chance(9, 10) {
+            items.push(Item::Op(Op::Set(0, n.clone(), rng.below(3) as u8)));
+        }
+        let len = rng.range(4, 24) as usize;
+        for _ in 0..len {
+            let h = rng.below(2) as usize;
+            let slot = |rng: &mut Rng| if nwatch == 0 { 0 } else { rng.below(nwatch as u64) as usize };
+            let it = match rng.below(20) {
+                0..=4 => Item::Op(Op::Set(h, n.clone(), rng.below(3) as u8)),
+                5 => Item::Op(Op::Clear(h, n.clone())),
+                6 => Item::Op(Op::Check(h, n.clone())),
+                7 => Item::Op(Op::Set(h, other.clone(), rng.below(3) as u8)),
+                8 => Item::Op(if rng.chance(1, 2) { Op::Clear(h, other.clone()) } else { Op::Watch(h, other.clone()) }),
+                9..=10 => Item::Op(Op::Watch(h, n.clone())),
+                11..=12 => Item::Op(Op::Next(slot(rng))),
+                13 => {
+                    if rng.chance(1, 3) {
+                        Item::Op(Op::Drop(slot(rng)))
+                    } else {
+                        Item::Op(Op::Next(slot(rng)))
+                    }
+                }
+                _ => Item::Await(slot(rng)),
+            };
+            if matches!(it, Item::Op(Op::Watch(..))) {
+                nwatch += 1;
+            }
+            items.push(it);
+        }
+        out.push(format!("park {}", items_tokens(&items)));
+    }
+}
+
+/// Every item sequence of length `len` over {set a 1, set a 2, clear a, watch a (at most two),
+/// next w, await w} after `set a 1`.
+fn enumerate_park(len: usize, out: &mut Vec<String>) {
+    fn rec(len: usize, cur: &mut Vec<Item>, nwatch: usize, out: &mut Vec<String>) {
+        if cur.len() == len + 1 {
+            out.push(format!("park {}", items_tokens(cur)));
+            return;
+        }
+        let a = "a".to_string();
+        let mut alphabet: Vec<Item> = vec![
+            Item::Op(Op::Set(0, a.clone(), 1)),
+            Item::Op(Op::Set(0, a.clone(), 2)),
+            Item::Op(Op::Clear(0, a.clone())),
+        ];
+        if nwatch < 2 {
+            alphabet.push(Item::Op(Op::Watch(0, a.clone())));
+        }
+        for w in 0..nwatch.min(2) {
+            alphabet.push(Item::Op(Op::Next(w)));
+            alphabet.push(Item::Await(w));
+        }
+        for it in alphabet {
+            let nw = nwatch + matches!(it, Item::Op(Op::Watch(..))) as usize;
+            cur.push(it);
+            rec(len, cur, nw, out);
+            cur.pop();
+        }
+    }
+    rec(len, &mut vec![Item::Op(Op::Set(0, "a".to_string(), 1))], 0, out);
+}
+
+fn park_corpus(out: &mut Vec<String>) {
+    let a = "a".to_string();
+    let e = "".to_string();
+    let set = |n: &String, s: u8| Item::Op(Op::Set(0, n.clone(), s));
+    let corpus: Vec<Vec<Item>> = vec![
+        // parked, then a different status: the task completes with it
+        vec![set(&a, 2), Item::Op(Op::Watch(0, a.clone())), Item::Op(Op::Next(0)), Item::Await(0), set(&a, 1), Item::Op(Op::Next(0))],
+        // parked, then the same status again: tonic-health reports it again
+        vec![set(&a, 2), Item::Op(Op::Watch(0, a.clone())), Item::Op(Op::Next(0)), Item::Await(0), set(&a, 2), Item::Op(Op::Next(0))],
+        // parked, then cleared: the task completes with end-of-stream
+        vec![set(&a, 2), Item::Op(Op::Watch(0, a.clone())), Item::Op(Op::Next(0)), Item::Await(0), Item::Op(Op::Clear(1, a.clone())), Item::Await(0)],
+        // await on a fresh stream delivers at once; the second await parks; unrelated operations do not wake it
+        vec![Item::Op(Op::Watch(0, e.clone())), Item::Await(0), Item::Await(0), set(&a, 1), Item::Op(Op::Check(0, e.clone())), Item::Op(Op::Watch(1, a.clone())), Item::Op(Op::Clear(0, a.clone())), Item::Op(Op::Next(0)), Item::Await(0)],
+        // two tasks parked on one name, a third on another name
+        vec![set(&a, 1), Item::Op(Op::Watch(0, a.clone())), Item::Op(Op::Watch(1, a.clone())), Item::Op(Op::Watch(0, e.clone())), Item::Await(0), Item::Await(1), Item::Await(2), Item::Await(0), Item::Await(1), Item::Await(2), set(&a, 2), set(&e, 2), Item::Await(0), Item::Op(Op::Clear(0, a.clone())), Item::Op(Op::Clear(0, e.clone()))],
+        // parked across a clear and a re-registration: the old stream ends, the new registration does not revive it
+        vec![set(&a, 1), Item::Op(Op::Watch(0, a.clone())), Item::Await(0), Item::Await(0), Item::Op(Op::Clear(0, a.clone())), set(&a, 2), Item::Await(0), Item::Op(Op::Watch(0, a.clone())), Item::Await(1), Item::Await(1), set(&a, 0)],
+        // giving up: the stream of a parked task is dropped
+        vec![set(&a, 1), Item::Op(Op::Watch(0, a.clone())), Item::Await(0), Item::Await(0), Item::Op(Op::Drop(0)), set(&a, 2), Item::Await(0), Item::Op(Op::Next(0))],
+        // set_serving / set_not_serving wake a task parked on NamedService::NAME
+        vec![Item::Op(Op::Serving(0)), Item::Op(Op::Watch(0, SVC_NAME.to_string())), Item::Await(0), Item::Await(0), Item::Op(Op::NotServing(1)), Item::Await(0), Item::Op(Op::NotServing(0))],
+        // a burst while parked: the task completes on the first update and sees the rest by polling
+        vec![set(&a, 1), Item::Op(Op::Watch(0, a.clone())), Item::Await(0), Item::Await(0), set(&a, 2), set(&a, 0), set(&a, 1), Item::Op(Op::Next(0)), Item::Op(Op::Next(0))],
+    ];
+    for c in &corpus {
+        out.push(format!("park {}", items_tokens(c)));
+    }
 }
 
 /// First registration raced: no set-up, several writers publish the first status of the same
